@@ -1,0 +1,26 @@
+//go:build verif
+
+package server
+
+// VerifGate is a verification hook (build tag "verif" only). When set it is
+// called at the entry of every FrameOutputBuffer operation, before the lock is
+// taken, with the name of the operation and the device EUI. The function may
+// block to hold the calling goroutine at that point.
+var VerifGate func(op string, key string)
+
+// VerifRouterHook is a verification hook (build tag "verif" only). When set it
+// is called by the EventRouter methods right after the router's lock is
+// acquired, so the order of the calls is the order of the critical sections.
+var VerifRouterHook func(op string, id any, ch any)
+
+func gate(op string, key string) {
+	if g := VerifGate; g != nil {
+		g(op, key)
+	}
+}
+
+func routerHook(op string, id any, ch any) {
+	if h := VerifRouterHook; h != nil {
+		h(op, id, ch)
+	}
+}
